@@ -11,6 +11,11 @@ import AfkakProofs.BrokerClient.Reent06
 import AfkakProofs.BrokerClient.Term
 import AfkakProofs.BrokerClient.Deliver
 import AfkakProofs.BrokerClient.Partition
+import AfkakProofs.BrokerClient.FuelFree
+import AfkakProofs.BrokerClient.ConnStream
+import AfkakProofs.BrokerClient.ChunkSplit
+import AfkakProofs.BrokerClient.BootOnce
+import AfkakProofs.BrokerClient.Genuine
 import AfkakProps.Open.C06
 /-!
 # C06 — each request completes exactly once, with the response bearing its own id
@@ -373,6 +378,136 @@ theorem C06_reentrant (cfg : Cfg) (host port : Nat) (evs : List Afkak.BrokerClie
   obtain ⟨N, hN⟩ := C06_reentrant_terminates cfg host port evs
   exact ⟨N, fun fuel hf => C06_reentrant_partial cfg fuel host port evs (hN fuel hf)⟩
 
+/-- "A frame announcing an impossible length terminates the connection instead of being buffered", for a transport that
+    KEEPS DELIVERING after `loseConnection()` (a TLS transport, a simulated one): `dataReceived` as written, called
+    for every chunk of ANY chunk list whatever happened before, only ever hands `stringReceived` packets that are frames
+    of the byte stream received so far parsed from its start — after an over-long prefix it never resynchronises
+    inside the stream, so no request can complete with bytes that never were a response frame.  (`framesGenuine` is
+    evaluated on the packets the real `KafkaProtocol` / `KafkaBootstrapProtocol` deliver, with a transport that keeps
+    delivering.) -/
+theorem C06_only_genuine_frames (chunks : List Bytes) : framesGenuine [] (feedTrace [] chunks) = true :=
+  Afkak.Frame.feedTrace_genuine chunks [] [] [] (Afkak.Frame.cont_init _)
+
+/-- non-vacuity: a frame, an over-long prefix, then in LATER reads bytes that would parse as a frame if the loop
+    restarted after the prefix: the genuine frame is re-delivered (the whole buffer is kept), nothing else is -/
+example : feedTrace [] [[0, 0, 0, 1, 7, 0x80, 0, 0, 0], [0, 0, 0, 1, 9], [0, 0, 0, 1, 5]]
+    = [([0, 0, 0, 1, 7, 0x80, 0, 0, 0], [[7]]), ([0, 0, 0, 1, 9], [[7]]), ([0, 0, 0, 1, 5], [[7]])] := by decide +kernel
+example : framesGenuine [] [([0, 0, 0, 1, 7, 0x80, 0, 0, 0], [[7]]), ([0, 0, 0, 1, 9], [[9]])] = false := by decide +kernel
+
+/-- Framing is PER CONNECTION ("frames split or coalesced arbitrarily by the transport are reassembled exactly", across
+    connection losses).  `connBytes` is the concatenation of the chunks handed to the protocol of the connection that
+    is current at the end of the run (a ghost, reset whenever a connection is established or goes away).  For every
+    event list:
+    * while no connection exists the receive buffer is empty — a partial frame pending when a connection drops is
+      gone, it cannot reach the next connection;
+    * while the connection is being read, `_unprocessed` is exactly what `IntNStringReceiver`'s loop (`parse`) leaves
+      of THIS connection's bytes, none of which announced an over-long packet;
+    * and the packets the next chunk hands to `handleResponse` (`(feed rbuf chunk).frames`, which is what `step` runs
+      `handleFrames` on) are exactly those by which the parse of (this connection's bytes ++ chunk) extends the
+      parse of this connection's bytes; the limit is exceeded by the one iff by the other.
+    So over its lifetime a connection delivers the parse of the bytes IT received, however they were cut and
+    whatever earlier connections received (`C06_all_chunkings` is the chunking half; this is the connection half). -/
+theorem C06_frames_per_connection (cfg : Cfg) (host port : Nat) (evs : List Ev) :
+    let s := run cfg (St.init host port) evs
+    let acc := connBytes cfg (St.init host port) [] evs
+    (s.proto = none → acc = [] ∧ s.rbuf = []) ∧
+    (s.proto ≠ none → s.losing = false →
+      (parse Afkak.Consts.kafkaMaxLength acc).exceeded = false ∧
+      s.rbuf = (parse Afkak.Consts.kafkaMaxLength acc).rest ∧
+      ∀ chunk : Bytes,
+        (parse Afkak.Consts.kafkaMaxLength (acc ++ chunk)).frames
+          = (parse Afkak.Consts.kafkaMaxLength acc).frames ++ (feed s.rbuf chunk).frames ∧
+        (parse Afkak.Consts.kafkaMaxLength (acc ++ chunk)).exceeded = (feed s.rbuf chunk).exceeded) := by
+  intro s acc
+  have h := cinv_run cfg evs (St.init host port) [] (sinv_init host port) (cinv_init host port)
+  refine ⟨h.idle, fun hp hl => ?_⟩
+  obtain ⟨h1, h2⟩ := h.reading hp hl
+  exact ⟨h1, h2, fun chunk => next_chunk_frames _ _ h hp hl chunk⟩
+
+/-- How the transport cuts the byte stream is unobservable AT THE BROKER CLIENT: on a connection that is being read
+    and is still being read after `dataReceived(c₁)` (no over-long prefix, no exception), `dataReceived(c₁)` followed by
+    `dataReceived(c₂)` does exactly what one `dataReceived(c₁ ++ c₂)` does — the same Deferreds fire with the same
+    packets in the same order, the same log lines and `lose`, the same state afterwards (up to the content of a
+    receive buffer that is never read again when the second part announced an over-long packet).  By induction on
+    the number of cuts: any chunking of a connection's bytes fires what the unchunked stream fires. -/
+theorem C06_chunk_split_unobservable (cfg : Cfg) (s : St) (c : Nat) (c1 c2 : Bytes) (hp : s.proto = some c) (hl : s.losing = false)
+    (h1 : (step cfg s (.bytesIn c1)).1.proto = some c) (h2 : (step cfg s (.bytesIn c1)).1.losing = false) :
+    (step cfg s (.bytesIn (c1 ++ c2))).2 = (step cfg s (.bytesIn c1)).2 ++ (step cfg (step cfg s (.bytesIn c1)).1 (.bytesIn c2)).2 ∧
+    { (step cfg s (.bytesIn (c1 ++ c2))).1 with rbuf := [] }
+      = { (step cfg (step cfg s (.bytesIn c1)).1 (.bytesIn c2)).1 with rbuf := [] } ∧
+    ((step cfg (step cfg s (.bytesIn c1)).1 (.bytesIn c2)).1.losing = false →
+      (step cfg s (.bytesIn (c1 ++ c2))).1 = (step cfg (step cfg s (.bytesIn c1)).1 (.bytesIn c2)).1) :=
+  split_unobservable cfg s c c1 c2 hp hl h1 h2
+
+/-- non-vacuity: the response to request 5 cut inside its correlation id -/
+example : let s := run ⟨fun _ => 1⟩ (St.init 1 9092) [.make 5 true, .make 6 true, .connOk]
+    s.proto = some 0 ∧ s.losing = false ∧
+    (step ⟨fun _ => 1⟩ s (.bytesIn [0, 0, 0, 4, 0, 0])).1.proto = some 0 ∧
+    (step ⟨fun _ => 1⟩ s (.bytesIn [0, 0, 0, 4, 0, 0])).1.losing = false ∧
+    (step ⟨fun _ => 1⟩ s (.bytesIn ([0, 0, 0, 4, 0, 0] ++ [0, 5, 0, 0, 0, 4, 0, 0, 0, 6]))).2
+      = [.fire 0 5 (.ok [0, 0, 0, 5]), .fire 1 6 (.ok [0, 0, 0, 6])] := by decide +kernel
+
+/-- every connection starts with an empty receive buffer, whatever the previous connection left unparsed -/
+theorem C06_fresh_buffer_per_connection (cfg : Cfg) (s : St) (h : s.connector = .attempt) :
+    (step cfg s .connOk).1.rbuf = [] ∧ (step cfg s .connOk).1.proto = some s.nconn := by
+  simp only [step, h, if_true]
+  split <;> simp [sendQueued]
+
+/-- non-vacuity / the `shared receive buffer` scenario: connection 0 is lost inside the response frame to request 5
+    (7 of its 8 bytes had arrived); on connection 1 the request is re-sent and its complete response arrives: it is
+    delivered, the stale bytes are not prepended. -/
+example : (trace ⟨fun _ => 1⟩ (St.init 1 9092)
+      [.make 5 true, .connOk, .bytesIn [0, 0, 0, 4, 0, 0, 0], .lost, .connOk, .bytesIn [0, 0, 0, 4, 0, 0, 0, 5]]).map (·.2) =
+    [[.connect 1 9092], [.write 0 0 5], [], [.connect 1 9092], [.write 1 0 5], [.fire 0 5 (.ok [0, 0, 0, 5])]] := by
+  decide +kernel
+example : connBytes ⟨fun _ => 1⟩ (St.init 1 9092) []
+      [.make 5 true, .connOk, .bytesIn [0, 0, 0, 4, 0, 0, 0], .lost, .connOk, .bytesIn [0, 0, 0, 4, 0, 0], .bytesIn [0, 5, 9]]
+    = [0, 0, 0, 4, 0, 0, 0, 5, 9] := by decide +kernel
+
+/-- C06 with RE-ENTRANT callbacks, WITHOUT any fuel qualifier.  `traceRω` / `runRω` (`AfkakProofs/BrokerClient/
+    FuelFree.lean`) run every step of the re-entrant model with the amount of fuel that step needs (`evBound`, an
+    explicit function of the state and the event); the fuel is only the device that makes the interpreter structurally
+    recursive.  For every configuration and every event list (callbacks = any finite lists of `close` / `disconnect` /
+    `cancel id` / `make id expect`, nested to any depth, stubborn and synchronous endpoints included):
+    * the stream monitor `r06` accepts the run (fires only after hand-out, at most once — no second firing is even
+      attempted —, `ok b` only with a packet carrying its id, everything unfired when a `close()` goes ahead has
+      fired when that call returns);
+    * at its end the Deferreds handed out are partitioned into fired-exactly-once and still-in-the-table-uncancelled
+      (nothing orphaned, nothing twice);
+    * and every fuel-indexed run with enough fuel IS this run — observations and final state. -/
+theorem C06_reentrant_fuel_free (cfg : Cfg) (host port : Nat) (evs : List Afkak.BrokerClientR.EvR) :
+    r06 (Afkak.BrokerClientR.traceRω cfg (Afkak.BrokerClientR.StR.init host port) evs) = true ∧
+    (let s := Afkak.BrokerClientR.runRω cfg (Afkak.BrokerClientR.StR.init host port) evs
+     let F := Afkak.BrokerClientR.firedR (Afkak.BrokerClientR.traceRω cfg (Afkak.BrokerClientR.StR.init host port) evs)
+     F.Nodup ∧ (∀ k ∈ F, k < s.core.nmake) ∧
+     (∀ k, k < s.core.nmake → ((∃ r ∈ s.core.reqs, r.serial = k ∧ r.cancelled = false) ↔ k ∉ F))) ∧
+    (∃ N, ∀ fuel, N ≤ fuel →
+      Afkak.BrokerClientR.traceRWith cfg fuel (Afkak.BrokerClientR.StR.init host port) evs
+          = Afkak.BrokerClientR.traceRω cfg (Afkak.BrokerClientR.StR.init host port) evs ∧
+      Afkak.BrokerClientR.runRWith cfg fuel (Afkak.BrokerClientR.StR.init host port) evs
+          = Afkak.BrokerClientR.runRω cfg (Afkak.BrokerClientR.StR.init host port) evs) :=
+  ⟨Afkak.BrokerClientR.r06_ω cfg host port evs, Afkak.BrokerClientR.partition_ω cfg host port evs,
+   Afkak.BrokerClientR.traceRWith_eq_ω cfg evs _⟩
+
+/-- The same for the very function the DRIVER executes (`stepR` = fuel 100000, `traceR`): whenever the driver's fuel
+    covers the explicit per-step bound along the run (`fuelOk`, a decidable check on the scenario; the generated
+    scenarios need a few hundred), the driver's run IS the fuel-free run, and `r06` accepts it. -/
+theorem C06_reentrant_driver (cfg : Cfg) (host port : Nat) (evs : List Afkak.BrokerClientR.EvR)
+    (hok : Afkak.BrokerClientR.fuelOk cfg Afkak.BrokerClientR.fuel (Afkak.BrokerClientR.StR.init host port) evs = true) :
+    Afkak.BrokerClientR.traceR cfg (Afkak.BrokerClientR.StR.init host port) evs
+        = Afkak.BrokerClientR.traceRω cfg (Afkak.BrokerClientR.StR.init host port) evs ∧
+    r06 (Afkak.BrokerClientR.traceR cfg (Afkak.BrokerClientR.StR.init host port) evs) = true := by
+  have e : Afkak.BrokerClientR.traceR cfg (Afkak.BrokerClientR.StR.init host port) evs
+      = Afkak.BrokerClientR.traceRω cfg (Afkak.BrokerClientR.StR.init host port) evs := by
+    rw [Afkak.BrokerClientR.traceR_eq_with]
+    exact (Afkak.BrokerClientR.of_fuelOk cfg _ evs _ hok).1
+  exact ⟨e, by rw [e]; exact Afkak.BrokerClientR.r06_ω cfg host port evs⟩
+
+/-- non-vacuity of `fuelOk`: the nested-callback scenario above needs 73 by the bound (20 in fact); the driver has 100000 -/
+example : Afkak.BrokerClientR.fuelOk ⟨fun _ => 1⟩ 73 (Afkak.BrokerClientR.StR.init 1 9092)
+      [.make 1 false (some [.cancel 2, .close]), .make 2 false none, .make 3 true (some [.make 4 true]), .flat .connOk,
+       .flat .lost] = true := by decide +kernel
+
 /-- Bootstrap connection, any number of requests, any event list: every request Deferred fires
     exactly once — with the packet carrying its id, by its own cancel, or with the connection-lost
     reason — and an over-long prefix drops the connection (the non-strict bootstrap monitor). -/
@@ -381,6 +516,86 @@ theorem C06_bootstrap_monitor_sound (evs : List Bootstrap.Ev) :
   simp only [bootAccepts]
   rw [← Bootstrap.absB_init, Bootstrap.simB_run _ evs Bootstrap.binv_init]
   rfl
+
+/-- What acceptance by the bootstrap monitor MEANS, for any trace — the model's or one recorded from the real
+    `KafkaBootstrapProtocol` —, either strictness: the serials that fired (in order, with repetitions if there were any)
+    together with the requests the monitor still counts as live are a permutation of the serials handed out
+    (`0 … bootMade tr - 1`), and after the connection was lost nothing is live.  So no Deferred fired twice, none
+    fired that was not handed out, none is orphaned, and once the connection is lost every one has fired exactly
+    once. -/
+theorem C06_bootstrap_exactly_once_of_accepted (strict : Bool) (tr : List (Bootstrap.Ev × List Bootstrap.Ob)) (m : BSt)
+    (h : brun strict BSt.init tr = some m) :
+    (bootFired tr ++ m.live.map (·.serial)).Perm (List.range (bootMade tr)) ∧ (m.lost = true → m.live = []) :=
+  bootAccepts_exactly_once strict tr m h
+
+/-- Bootstrap connection, exactly once, for every event list of the model: the fired serials are distinct and were
+    handed out; a Deferred handed out has fired iff it is no longer pending-and-uncancelled in `_pending`; and once the
+    connection is lost (`_failed` set) the fired serials are exactly all the serials handed out, each once. -/
+theorem C06_bootstrap_exactly_once (evs : List Bootstrap.Ev) :
+    let tr := Bootstrap.trace Bootstrap.St.init evs
+    let s := Bootstrap.run Bootstrap.St.init evs
+    (bootFired tr).Nodup ∧ (∀ k ∈ bootFired tr, k < bootMade tr) ∧
+    (∀ k, k < bootMade tr → (k ∈ bootFired tr ↔ ¬ ∃ l ∈ Bootstrap.absBLive s.pending, l.serial = k)) ∧
+    (s.failed = true → (bootFired tr).Perm (List.range (bootMade tr))) := by
+  intro tr s
+  have hr : brun false BSt.init tr = some (Bootstrap.absB s) := by
+    rw [← Bootstrap.absB_init]; exact Bootstrap.simB_run _ evs Bootstrap.binv_init
+  obtain ⟨hp, hl⟩ := bootAccepts_exactly_once false tr _ hr
+  have hnd := hp.nodup_iff.mpr List.nodup_range
+  obtain ⟨n1, _, n3⟩ := List.nodup_append.mp hnd
+  have hlive : (Bootstrap.absB s).live = Bootstrap.absBLive s.pending := rfl
+  rw [hlive] at hp hl n3
+  refine ⟨n1, fun k hk => ?_, fun k hk => ⟨fun hf ⟨l, hl1, hl2⟩ => ?_, fun hn => ?_⟩, fun hf => ?_⟩
+  · have := hp.mem_iff.mp (List.mem_append_left _ hk)
+    simpa using this
+  · exact n3 k hf k (hl2 ▸ List.mem_map_of_mem hl1) rfl
+  · have := hp.mem_iff.mpr (List.mem_range.mpr hk)
+    rcases List.mem_append.mp this with h | h
+    · exact h
+    · obtain ⟨l, hl1, hl2⟩ := List.mem_map.mp h
+      exact absurd ⟨l, hl1, hl2⟩ hn
+  · have : Bootstrap.absBLive s.pending = [] := hl hf
+    rw [this] at hp
+    simpa using hp
+
+/-- non-vacuity: three requests; one answered, one cancelled, one failed by the loss of the connection -/
+example : bootFired (Bootstrap.trace Bootstrap.St.init
+      [.request [0, 3, 0, 0, 0, 0, 0, 2], .request [0, 3, 0, 0, 0, 0, 0, 3], .request [0, 3, 0, 0, 0, 0, 0, 4], .cancel 1,
+       .bytesIn [0, 0, 0, 5, 0, 0, 0, 2, 0x44], .lost .lost]) = [1, 0, 2] := by decide
+
+/-- `connectionLost(reason)` on a bootstrap connection: every pending, uncancelled request fails with THAT reason
+    (nothing else fires), `_pending` is dropped, and from then on every `request()` fails at once with the same
+    reason (`_failed`), writes nothing and raises nothing. -/
+theorem C06_bootstrap_lost_reason (s : Bootstrap.St) (ps : List Bootstrap.Pend) (r : Bootstrap.Reason)
+    (hp : s.pending = some ps) :
+    (Bootstrap.step s (.lost r)).2 = (ps.filter (fun p => !p.cancelled)).map (fun p => .fire p.serial (.connLost r)) ∧
+    (Bootstrap.step s (.lost r)).1.pending = none ∧
+    ∀ (evs : List Bootstrap.Ev) (payload : Bytes),
+      (∀ e ∈ evs, ∃ p, e = .request p) →
+      (Bootstrap.step (Bootstrap.run (Bootstrap.step s (.lost r)).1 evs) (.request payload)).2
+        = [.fire (Bootstrap.run (Bootstrap.step s (.lost r)).1 evs).nreq (.connLost r)] := by
+  refine ⟨by simp [Bootstrap.step, hp], by simp [Bootstrap.step, hp], ?_⟩
+  intro evs payload hev
+  have key : ∀ (evs : List Bootstrap.Ev) (t : Bootstrap.St), t.failed = true → t.reason = r → (∀ e ∈ evs, ∃ p, e = .request p) →
+      (Bootstrap.run t evs).failed = true ∧ (Bootstrap.run t evs).reason = r := by
+    intro evs
+    induction evs with
+    | nil => intro t h1 h2 _; exact ⟨h1, h2⟩
+    | cons e es ih =>
+      intro t h1 h2 he
+      obtain ⟨p, rfl⟩ := he e (by simp)
+      simp only [Bootstrap.run]
+      apply ih
+      · simp [Bootstrap.step, h1]
+      · simp [Bootstrap.step, h1, h2]
+      · intro e' he'; exact he e' (by simp [he'])
+  obtain ⟨k1, k2⟩ := key evs (Bootstrap.step s (.lost r)).1 (by simp [Bootstrap.step, hp]) (by simp [Bootstrap.step, hp]) hev
+  generalize Bootstrap.run (Bootstrap.step s (.lost r)).1 evs = t at k1 k2 ⊢
+  simp [Bootstrap.step, k1, k2]
+
+example : (Bootstrap.trace Bootstrap.St.init
+      [.request [0, 3, 0, 0, 0, 0, 0, 2], .lost .lost, .request [0, 3, 0, 0, 0, 0, 0, 3]]).map (·.2)
+    = [[.write 0], [.fire 0 (.connLost .lost)], [.fire 1 (.connLost .lost)]] := by decide
 
 /-- Single-request use of a bootstrap connection (what `KafkaClient` does): if the first packet of
     the broker's byte stream is a legal frame carrying the request's correlation id, the request
@@ -403,13 +618,42 @@ theorem C06_bootstrap_single (p f1 rest : Bytes) (chunks : List Bytes) (hf : f1.
   simp only [Bootstrap.firesOf] at this
   simp [bootFires, this]
 
+/-- Bootstrap connection, "a frame whose id belongs to a cancelled request changes the outcome of no other
+    request": a chunk that completes one packet carrying the id of a request that was cancelled on this
+    connection (every pending entry with that id is cancelled) fires nothing, does NOT make the protocol drop the
+    connection, and removes only that entry from `_pending` — the other requests stay pending.  (The monitor
+    `bstep` demands the same of the implementation: `lose` only for an over-long prefix or a packet counted by
+    `bootDrops`, i.e. one that no request made on this connection, cancelled or not, is still waiting for.) -/
+theorem C06_bootstrap_cancelled_id_harmless (s : Bootstrap.St) (ps : List Bootstrap.Pend) (chunk f : Bytes)
+    (hp : s.pending = some ps) (hl : s.losing = false)
+    (hfr : (feed s.rbuf chunk).frames = [f]) (hex : (feed s.rbuf chunk).exceeded = false)
+    (hk : ps.any (fun p => p.cid == Bootstrap.respCid f) = true)
+    (hc : ∀ p ∈ ps, p.cid = Bootstrap.respCid f → p.cancelled = true) :
+    (Bootstrap.step s (.bytesIn chunk)).2 = [] ∧
+    (Bootstrap.step s (.bytesIn chunk)).1.losing = false ∧
+    (Bootstrap.step s (.bytesIn chunk)).1.pending = some (ps.filter (fun p => p.cid != Bootstrap.respCid f)) := by
+  have hnone : ps.filter (fun p => p.cid == Bootstrap.respCid f && !p.cancelled) = [] := by
+    rw [List.filter_eq_nil_iff]
+    intro p hp'
+    by_cases h : p.cid = Bootstrap.respCid f
+    · simp [h, hc p hp' h]
+    · simp [h]
+  simp [Bootstrap.step, hp, hl, hfr, hex, Bootstrap.deliver, Bootstrap.stringReceived, hk, hnone]
+
+/-- non-vacuity: two requests, the first cancelled, its late reply arrives: the second is still pending -/
+example :
+    let s := Bootstrap.run Bootstrap.St.init [.request [0, 3, 0, 0, 0, 0, 0, 2], .request [0, 3, 0, 0, 0, 0, 0, 3], .cancel 0]
+    (feed s.rbuf [0, 0, 0, 5, 0, 0, 0, 2, 0x44]).frames = [[0, 0, 0, 2, 0x44]] ∧
+    s.pending = some [⟨[0, 0, 0, 2], 0, true⟩, ⟨[0, 0, 0, 3], 1, false⟩] ∧
+    (Bootstrap.step s (.bytesIn [0, 0, 0, 5, 0, 0, 0, 2, 0x44])).1.pending = some [⟨[0, 0, 0, 3], 1, false⟩] := by decide
+
 /-- The code violates the full-strength bootstrap statement (`Open/C06.lean`): two requests pending,
     the reply to the first and then a packet with an id nobody asked for — the protocol drops the
     connection and the second request is lost with it. -/
 theorem C06_bootstrap_no_crosstalk_counterexample : ¬ Open.C06_bootstrap_no_crosstalk := by
   intro h
   have := h [.request [0, 3, 0, 0, 0, 0, 0, 2], .request [0, 3, 0, 0, 0, 0, 0, 3],
-             .bytesIn [0, 0, 0, 5, 0, 0, 0, 2, 0x44, 0, 0, 0, 2, 0, 1], .lost]
+             .bytesIn [0, 0, 0, 5, 0, 0, 0, 2, 0x44, 0, 0, 0, 2, 0, 1], .lost .done]
   revert this
   decide
 
@@ -495,6 +739,10 @@ C06_exactly_once
 C06_close_completes_all
 C06_delivery
 C06_all_chunkings
+C06_frames_per_connection
+C06_fresh_buffer_per_connection
+C06_chunk_split_unobservable
+C06_only_genuine_frames
 C06_causes
 C06_own_response
 C06_no_crosstalk
@@ -503,7 +751,11 @@ C06_oversize
 C06_short_frame
 C06_answered_request
 C06_bootstrap_monitor_sound
+C06_bootstrap_exactly_once_of_accepted
+C06_bootstrap_exactly_once
+C06_bootstrap_lost_reason
 C06_bootstrap_single
+C06_bootstrap_cancelled_id_harmless
 C06_bootstrap_no_crosstalk_counterexample
 C06_bootstrap_no_crosstalk_partial
 C06_reentrant_model_conservative
@@ -511,6 +763,8 @@ C06_reentrant_partial
 C06_reentrant_terminates
 C06_reentrant_partition
 C06_reentrant
+C06_reentrant_fuel_free
+C06_reentrant_driver
 -/
 /- OPEN_STATEMENTS
 C06_bootstrap_no_crosstalk
